@@ -57,6 +57,19 @@ pub fn get_date_time_unix_nano() -> i128 {
     OffsetDateTime::now_utc().unix_timestamp_nanos()
 }
 
+/// Get the longest prefix of `s` that is not longer than `max_len` bytes and ends at a char boundary.
+/// Slicing or truncating a string inside a multi-byte character panics.
+pub fn truncate_at_char_boundary(s: &str, max_len: usize) -> &str {
+    if s.len() <= max_len {
+        return s;
+    }
+    let mut end = max_len;
+    while !s.is_char_boundary(end) {
+        end -= 1;
+    }
+    &s[..end]
+}
+
 pub fn try_create_folder(dir: &Path) -> Result<()> {
     match dir.try_exists() {
         Ok(exists) => {
